@@ -141,6 +141,7 @@ pub struct Cov {
     pub leaks_by_client: u64,
     pub distinct: std::collections::HashSet<u64>,
     pub second_faults: u64,
+    pub leak_cases: u64,
 }
 
 /// callbacks performed by `op` on the state of `recipe`, per kind (fault-free run)
@@ -303,6 +304,17 @@ pub fn mode_faults(a: &Args) -> i32 {
         };
         journal.line(&format!("EP {}", serde_json::json!({"mode":"faults","index":idx,"kind":kind.name(),"hasher":hasher})));
         let mut sub = 0u64;
+        // a leaked drain / iter_mut guard is an event of its own: one case without any panic
+        if matches!(&op, Op::Drain { leak: true, .. } | Op::IterMut { leak: true, .. }) && !(idx == start && substart > 0) {
+            let c = FaultCase { kind, hasher: hasher.clone(), recipe: rec.clone(), op: op.clone(), cb: Cb::Cmp, k: u64::MAX / 4, cont_seed: rng.next_u64(), second: None };
+            if journal.enabled() {
+                journal.line(&format!("CASE {}", serde_json::json!({"mode":"faults","what":format!("{}/leak", op.name()),"props":["C10"],"sub":0,"case":c})));
+            }
+            cn.leak_cases += 1;
+            if let Some(v) = crate::dispatch!(kind, hasher.as_str(), exec_fault, &c, &mut cn) {
+                sink.viol(&v.props, &v.sig(), &v.detail, serde_json::json!({"mode":"faults","case":c}));
+            }
+        }
         for cbk in ALL_CB {
             let total = counts[cbk as usize];
             if total == 0 {
@@ -356,7 +368,7 @@ pub fn mode_faults(a: &Args) -> i32 {
             "fault_episodes_state_x_op": cn.episodes, "crash_points": cn.crash_points, "panics_injected_and_caught": cn.fired,
             "fuse_not_reached": cn.not_reached, "continuation_ops": cn.cont_ops, "continuation_safe_panics": cn.cont_safe_panics,
             "tables_inconsistent_after_fault": cn.inconsistent_after_fault, "by_operation": cn.by_class, "by_callback": cn.by_cb,
-            "ledger_checks": cn.ledger_checks, "cases_with_client_leak": cn.leaks_by_client, "second_faults": cn.second_faults,
+            "ledger_checks": cn.ledger_checks, "cases_with_client_leak": cn.leaks_by_client, "second_faults": cn.second_faults, "leaked_iterator_cases": cn.leak_cases,
             "samples": samples,
         }),
     );
